@@ -39,15 +39,38 @@ class Affine:
         self.n, self.off, self.mul = n, off, mul
 
     def __add__(self, o):
-        return Affine(self.n, self.off + o, self.mul)
+        r = Affine(self.n, self.off + o, self.mul)
+        if hasattr(self, 'over'):
+            raise core.Unsupported('arithmetic after element assignment')
+        return r
     __radd__ = __add__
 
     def __mul__(self, o):
         return Affine(self.n, self.off, self.mul * o)
     __rmul__ = __mul__
 
-    def at(self, i):
+    def base_at(self, i):
         return (i + core.lift(self.off)) * core.lift(self.mul)
+
+    def at(self, i):
+        r = self.base_at(i)
+        for k, v in getattr(self, 'over', {}).items():       # element overrides rows[k] = v (k may be negative)
+            idx = core.lift(self.n) + k if k < 0 else z3.IntVal(k)
+            r = z3.If(i == idx, core.lift(v), r)
+        return r
+
+    def __getitem__(self, k):
+        if isinstance(k, int):
+            idx = core.lift(self.n) + k if k < 0 else z3.IntVal(k)
+            return SN(self.at(idx))
+        raise core.Unsupported('index %r of an arange-based grid' % (k,))
+
+    def __setitem__(self, k, v):
+        if not isinstance(k, int):
+            raise core.Unsupported('assignment to index %r of an arange-based grid' % (k,))
+        if not hasattr(self, 'over'):
+            self.over = {}
+        self.over[k] = v
 
 
 class Hdr(dict):
@@ -120,6 +143,10 @@ def h_roundtrip(ft, f, cdkind):
         hdr.update(CRPIX1=crpix1, CRPIX2=crpix2, NAXIS1=cy, NAXIS2=cx)
         k1, k2 = ('CDELT1', 'CDELT2') if cdkind == 'CDELT' else ('CD1_1', 'CD2_2')
         hdr[k1], hdr[k2] = cd1, cd2
+        if cdkind == 'CD':
+            hdr['CD1_2'], hdr['CD2_1'] = real('CD1_2'), real('CD2_1')
+        hdr['CRVAL1'], hdr['CRVAL2'], hdr['EQUINOX'] = real('CRVAL1'), real('CRVAL2'), 2000.0
+        original = dict(hdr)
         data = Arr((cx, cy), 'data')
         hdu = HDU()
         hdu.header, hdu.data = hdr, data
@@ -177,13 +204,16 @@ def h_roundtrip(ft, f, cdkind):
         if okr:
             i = z3.Int('i')
             for nm, ax, n, size in (('row', rows, nx + 1, cx), ('col', cols, ny + 1, cy)):
-                c.oblige(etag + ':%s node i sits at coordinate i*f' % nm, z3.Implies(z3.And(i >= 0, i < L(ax.n)), ax.at(i) == i * f))
+                c.oblige(etag + ':%s node i (i < stored samples) sits at coordinate i*f' % nm, z3.Implies(z3.And(i >= 0, i < L(ax.n) - 1), ax.at(i) == i * f))
+                c.oblige(etag + ':%s nodes strictly increasing' % nm, z3.Implies(z3.And(i >= 0, i < L(ax.n) - 1), ax.at(i) < ax.at(i + 1)))
                 c.oblige(etag + ':%s nodes: one per stored sample' % nm, L(ax.n) == L(n))
                 c.oblige(etag + ':%s nodes bracket every target index (no extrapolation), also for f > size' % nm, z3.And(ax.at(z3.IntVal(0)) <= 0, ax.at(L(ax.n) - 1) >= size.e - 1))
         h3 = hdu.header
         c.oblige(etag + ':compression keywords removed', z3.BoolVal(not any(k in h3 for k in KEYS)))
         c.oblige(etag + ':CRPIX restored', z3.And(L(h3['CRPIX1']) == crpix1.e, L(h3['CRPIX2']) == crpix2.e))
         c.oblige(etag + ':pixel scale restored', z3.And(L(h3[k1]) == cd1.e, L(h3[k2]) == cd2.e))
+        rest = [k for k in original if k not in ('NAXIS1', 'NAXIS2', 'HISTORY')]
+        c.oblige(etag + ':every WCS keyword of the original header is restored', z3.And([z3.BoolVal(k in h3) for k in rest] + [L(h3[k]) == L(original[k]) for k in rest if k in h3]))
         return dict(f=f)
     return h
 
@@ -201,6 +231,7 @@ def oracle(shape, f, cd='CDELT'):
         hdr['CDELT1'], hdr['CDELT2'] = -0.01, 0.01
     else:
         hdr['CD1_1'], hdr['CD2_2'] = -0.01, 0.01
+        hdr['CD1_2'], hdr['CD2_1'] = 0.004, 0.004
     hl = fits.HDUList([fits.PrimaryHDU(data.copy(), header=hdr)])
     orig = dict(hl[0].header)
     try:
@@ -216,7 +247,7 @@ def oracle(shape, f, cd='CDELT'):
     if out.shape != data.shape:
         return True, 'shape', 'shape %s factor %d came back as %s' % (shape, f, out.shape)
     h = e[0].header
-    for k in ('CRPIX1', 'CRPIX2', 'CDELT1', 'CDELT2', 'CD1_1', 'CD2_2'):
+    for k in ('CRPIX1', 'CRPIX2', 'CDELT1', 'CDELT2', 'CD1_1', 'CD2_2', 'CD1_2', 'CD2_1'):
         if k in orig and abs(h[k] - orig[k]) > 1e-9:
             return True, 'wcs', '%s = %r after the round trip (was %r), shape %s factor %d' % (k, h[k], orig[k], shape, f)
     if any(k in h for k in KEYS):
@@ -266,11 +297,11 @@ def run(rep):
         if f in (1, 3, 64) and cd == 'CDELT' and res:
             rep.sample(dict(factor=f, header=cd, paths=st.paths, obligations=[(o['name'].split(':')[-1], o['result']) for o in res[0]['obligations']][:12]))
     rep.end_kernel()
-    for shape, f in (((9, 7), 2), ((2, 2), 5), ((33, 20), 4), ((16, 16), 16), ((17, 5), 1)):
-        bad, cls, detail = oracle(shape, f)
+    for shape, f, cdk in (((9, 7), 2, 'CDELT'), ((2, 2), 5, 'CDELT'), ((33, 20), 4, 'CD'), ((16, 16), 16, 'CDELT'), ((17, 5), 1, 'CD')):
+        bad, cls, detail = oracle(shape, f, cdk)
         rep.validated_runs(1)
         if bad:
-            rep.finding('C15/K-bookkeeping/%s' % cls, dict(shape=list(shape), factor=f, cd='CDELT'), detail, kernel='K-bookkeeping')
+            rep.finding('C15/K-bookkeeping/%s' % cls, dict(shape=list(shape), factor=f, cd=cdk), detail, kernel='K-bookkeeping')
     rep.not_decided += ['a compressed background/noise file is accepted by Aegean wherever an uncompressed one is (load_globals plumbing)', 'interpolated values (scipy)']
 
 
